@@ -451,6 +451,7 @@ func main() {
 		out := openOut(os.Args[4])
 		total := 4 * (1 + 5 + 25 + 125 + 625 + 3125 + 15625 + 78125)
 		for i := 0; i < n; i++ {
+			markCase(uint64(i))
 			idx := i
 			if n < total { // sample: short histories first, then random long ones
 				if i >= 4*(1+5+25+125+625) {
@@ -462,6 +463,7 @@ func main() {
 			if !ok {
 				break
 			}
+			noteInput(fmt.Sprintf("reload hot=%v first-build-ok=%v ops=%s", hot, first, ops))
 			line, c18 := runReloadHistory(hot, first, ops)
 			out.count(fmt.Sprintf("len%d", len(ops)))
 			h, f := 0, 0
